@@ -29,6 +29,7 @@ const modPath = "github.com/textwire/textwire/v2"
 type Model struct {
 	lookupTableAt  map[*ssa.Parameter]ssa.Value
 	ifCaseRes      *ifCaseResult
+	errNodes       map[string]bool
 	eachCaseRes    *loopCaseResult
 	forCaseRes     *loopCaseResult
 	newTokenUnread bool // newToken ends a token that has read nothing on the current character
